@@ -170,8 +170,9 @@ def pairOpt (f g : Val → Option Val) (p : Val × Val) : Option (Val × Val) :=
 /-! ### the functional form of the load rules -/
 
 /-- The value the documented rule of the type prescribes for the datum, `none` when it
-    prescribes none. Plain recursion on the type expression (the `Nat` bounds the nesting
-    depth: `depth T ≤ n` is enough, see `specLoad_mono`-free statements in Props/C02). -/
+    prescribes none. Plain recursion on the type expression; the `Nat` only bounds the nesting
+    depth (`depth T ≤ n` is enough: `specLoad_sound_complete` in Props/C02 shows the result is
+    then the fuel-free relation `LoadsTo`). -/
 def specLoad (W : World) (strict : Bool) : Nat → Ty → Val → Option Val
   | 0, _, _ => none
   | n + 1, ty, d =>
@@ -302,13 +303,18 @@ def NoneExact (W : World) (strict : Bool) : Prop :=
   W.scalarLoad strict "none" .none = .ok .none ∧
   ∀ d, d.isNone = false → ∃ e, W.scalarLoad strict "none" d = .err e
 
+/-- the `None` type -/
+def isNoneCase : Ty → Bool
+  | .scalar "none" => true
+  | _ => false
+
 /-- `Optional[T]` written `[T, None]`: `T` does not turn `None` into something else.
     (The code answers `None` for `None` without asking `T`; the documented rule asks `T` first.
     The documentation itself demands "no value that would be accepted by several union case
     loaders"; this is the only instance of that demand the theorems need.) -/
 def OptOK (W : World) (strict : Bool) : Ty → Prop
   | .union [a, b] _ =>
-    isNoneTy a = false → isNoneTy b = true →
+    isNoneCase a = false → isNoneCase b = true →
       ∀ n v, specLoad W strict n a .none = some v → v = .none
   | _ => True
 
@@ -344,11 +350,6 @@ def Agrees {α : Type} (o : Outcome α) (r : Option α) : Prop :=
 def Settled {α : Type} (o : Outcome α) : Prop := (∃ a, o = .ok a) ∨ (∃ e, o = .err e)
 
 /-! ### the documented dump rules -/
-
-/-- the `None` type -/
-def isNoneCase : Ty → Bool
-  | .scalar "none" => true
-  | _ => false
 
 /-- `Optional[T]` (exactly two cases, one of them `None`): the other case -/
 def optionalOther : List Ty → Option Ty
